@@ -238,6 +238,46 @@ def marked_in_loop(cli, s_all):
     return None
 
 
+def tokenising_pass(idx, fn, e):
+    """`e` (the expression handed to the parser, definitions expanded) is `<pattern>.sub(<function>, <text>)` / `re.sub(<pattern>,
+    <function>, <text>)` whose pattern first matches whole quoted strings (the lexer's own STRING rule, or a literal that opens
+    with a double quote) in order to copy them: a pass that claims to step over string contents.  Returns the pattern's source
+    text, or None.  Whether such a pass leaves the token stream and the line count as they were is not decided by these rules."""
+    if not (isinstance(e, ast.Call) and isinstance(e.func, ast.Attribute) and e.func.attr in ("sub", "subn")):
+        return None
+    pat = None
+    if isinstance(e.func.value, ast.Name) and e.func.value.id == "re" and len(e.args) >= 3:
+        pat, repl = e.args[0], e.args[1]
+    elif len(e.args) >= 2:
+        repl = e.args[0]
+        recv = e.func.value
+        if isinstance(recv, ast.Name):
+            r_ = idx.resolve(fn.module, recv, fn)
+            if r_ is not None and r_[0] == "const":
+                v_ = r_[1].consts.get(r_[2])
+                if isinstance(v_, ast.Call) and K.src(v_.func) in ("re.compile", "compile") and v_.args:
+                    pat = v_.args[0]
+    if pat is None or not isinstance(repl, (ast.Lambda, ast.Name, ast.Attribute)):
+        return None
+    txt = K.src(pat)
+    lit = pat.value if isinstance(pat, ast.Constant) and isinstance(pat.value, str) else None
+    if lit is None and isinstance(pat, ast.Call) and isinstance(pat.func, ast.Attribute) and pat.func.attr == "format" and isinstance(pat.func.value, ast.Constant) and isinstance(pat.func.value.value, str):
+        lit = pat.func.value.value
+        if "t_STRING" in txt:
+            import re as _re
+
+            head = _re.sub(r"^(\(\?P<\w+>|\(\?:|\()+", "", lit)
+            if head.startswith("{"):
+                return txt
+    if lit is not None:
+        import re as _re
+
+        head = _re.sub(r"^(\(\?P<\w+>|\(\?:|\()+", "", lit)
+        if head.startswith('"') and "|" in lit:
+            return txt
+    return None
+
+
 def text_reaches_lexer(ctx, idx, rule, consequence):
     """from_source -> Parser.parse -> PLY: each hop passes its own text parameter on as it is"""
     hops = [(idx.func("mpilot.program", "Program.from_source"), "from_source -> Parser.parse"), (idx.func("mpilot.parser.parser", "Parser.parse"), "Parser.parse -> PLY parse")]
@@ -267,6 +307,15 @@ def text_reaches_lexer(ctx, idx, rule, consequence):
                 defs_ = [n_.value for n_ in own_nodes(fn.node) if isinstance(n_, ast.Assign) and any(isinstance(t_, ast.Name) and t_.id == inner.id for t_ in n_.targets)]
                 if defs_:
                     text = K.src(defs_[-1])
+            tp = None
+            if isinstance(inner, ast.Name):
+                defs2_ = [n_.value for n_ in own_nodes(fn.node) if isinstance(n_, ast.Assign) and any(isinstance(t_, ast.Name) and t_.id == inner.id for t_ in n_.targets)]
+                if len(defs2_) == 1:
+                    tp = tokenising_pass(idx, fn, defs2_[0])
+            else:
+                tp = tokenising_pass(idx, fn, inner)
+            if tp:
+                raise AnalysisError("%s: %s: the text goes through a regular-expression pass that copies quoted strings and rewrites the layout around them (`%s`); whether the tokens and the line count come out as before is not decided" % (rule, what, tp[:70]))
             shifting = [m for m in (".strip(", ".lstrip(", ".rstrip(", ".splitlines(", ".split(", ".replace(", ".expandtabs(", ".translate(", ".encode(", ".decode(", "dedent(", "normalize(", "re.sub(", "[") if m in text] or rebound
             if shifting:
                 ctx.violate(rule, con, K.rel(fn), c.lineno, "%s: the text is transformed on the way (`%s`): %s" % (what, text[:80], consequence))
@@ -422,7 +471,15 @@ def run(ctx, idx):
     con = "%s::t_ignore::terminators-not-ignored" % pmod.rel
     ctx.ob("C11.b", con, pmod.rel, L.lexer_cls.node.lineno, not swallowed, "neither CR nor LF is in t_ignore" if not swallowed else
            "t_ignore contains %s: that line terminator is skipped without advancing the line counter, so in a file with bare-CR or mixed line ends every later command, argument and error carries too small a line number" % ", ".join(repr(c) for c in swallowed))
-    if not swallowed:
+    pre_ = False
+    pf_ = idx.func("mpilot.parser.parser", "Parser.parse")
+    if pf_ is not None:
+        for n_ in own_nodes(pf_.node):
+            if isinstance(n_, ast.Call) and tokenising_pass(idx, pf_, n_):
+                pre_ = True
+    if pre_:
+        ctx.note("C11.b: the text is normalised by a string-copying regular-expression pass before it is tokenised; which line ends reach the lexer is left to C11.g (cannot decide)")
+    if not swallowed and not pre_:
         cr_counted = any(RL.contains(dfas[r.name], {"\r"}) is not None for r in nl)
         cr_other = [r.name for r in L.rules if r not in nl and not r.ignored and RL.intersection(dfas[r.name], RL.dfa(r"\r")) is not None]
         ctx.ob("C11.b", "%s::bare-CR-counted" % pmod.rel, pmod.rel, nl[0].node.lineno, cr_counted or bool(cr_other), "a bare CR is matched by the counting newline rule" if cr_counted else
